@@ -38,7 +38,9 @@ WriteAccept(buf, n) ==
     /\ summed' = summed \o (IF AsFound THEN buf ELSE SubSeq(buf, 1, n))
     /\ pending' = SubSeq(buf, n + 1, Len(buf))
     /\ intr' = 0
-    /\ UNCHANGED <<failed, flushed>>
+    \* bytes accepted after the last flush are not flushed
+    /\ flushed' = FALSE
+    /\ UNCHANGED failed
 
 WriteInterrupted(buf) ==
     /\ Offered(buf)
